@@ -605,7 +605,55 @@ def run_extra(ctx):
     C15.run_extra(Renamed(ctx, "R03.11"))
 
 
+def r03_12(ctx, prog, crate):
+    """T is the thread count that was written: the conversion the macros emit for a scalar `threads = N`
+    (<usize as IntoThreads<0>>::into_threads) answers with a borrowed constant only on a path that has tested `self == k`
+    for that very k (the literals of the promoted arrays are exactly the tested values), and with an owned list built from
+    `self` otherwise - no table looked up by a function of N (log2, clamping), which would round other counts."""
+    from lib.patheval import PathEval
+    path = "<usize as __private::IntoThreads<0>>::into_threads"
+    b = prog.body(path, crate)
+    if not ctx.anchor("R03.12", "IntoThreads<0> for usize", 1 if b else 0, 1):
+        return
+    ctx.saw(b)
+    sums = PathEval(b).run()
+    if not ctx.check(bool(sums), "R03.12", ["into_threads(usize)", "readable"], "cannot summarise", b.where(0)):
+        return
+    tested = set()
+    owned = 0
+    for sm in sums:
+        vals = [a[2] for a, pol in sm.conds if a[0] == "val" and a[1] == ("arg", 1, ()) and pol]
+        other = [a for a, pol in sm.conds if not (a[0] == "val" and a[1] == ("arg", 1, ()))]
+        r = sm.ret
+        if r[0] == "adt" and r[2] == "Borrowed":
+            ok = len(vals) == 1 and isinstance(vals[0], int) and not other
+            if ok:
+                tested.add(vals[0])
+            ctx.check(ok, "R03.12", ["into_threads(usize)", "constant-only-for-a-tested-value"],
+                      "a borrowed constant list is returned on a path that did not test `self == k` (conditions %s)" % [str(c[0])[:50] for c in sm.conds][:3], b.where(sm.blocks[-1]))
+        elif r[0] == "adt" and r[2] == "Owned":
+            owned += 1
+            srcs = set()
+            for bi, si, st in b.stmts():
+                if st["k"] == "assign" and st["rv"]["k"] == "agg" and st["rv"].get("ak") == "array":
+                    for o in st["rv"]["ops"]:
+                        srcs |= {x.label() for x in b.prov.op_src(o)}
+            ctx.check(srcs == {"param:" + b.param_name(1)}, "R03.12", ["into_threads(usize)", "owned-list-is-[self]"],
+                      "the owned list is built from %s, expected exactly [self]" % sorted(srcs), b.where(sm.blocks[-1]))
+        else:
+            ctx.fail("R03.12", ["into_threads(usize)", "result-shape"], "a path returns %s" % str(r)[:80], b.where(sm.blocks[-1]))
+    lits = set()
+    for k, pb in prog.bodies.items():
+        if k[0] == crate and k[1] == path and k[2] >= 0:
+            for bi, si, st in pb.stmts():
+                if st["k"] == "assign" and st["rv"]["k"] == "agg" and st["rv"].get("ak") == "array":
+                    lits.add(tuple(int(o["c"]["bits"]) for o in st["rv"]["ops"] if o["k"] == "const"))
+    ctx.check(lits == {(v,) for v in tested} and owned >= 1, "R03.12", ["into_threads(usize)", "constants-are-the-tested-values"],
+              "promoted constant lists %s vs tested values %s (owned paths: %d)" % (sorted(lits), sorted(tested), owned), b.where(0))
+
+
 def run(ctx, prog, crate):
+    r03_12(ctx, prog, crate)
     r03_10(ctx, prog, crate)
     r03_8(ctx, prog, crate)
     r03_9(ctx, prog, crate)
